@@ -31,12 +31,14 @@ fn plan(tier: Tier) -> Vec<Unit> {
         Tier::Quick => {
             let mut v = crate::util::split_budget("grid", GRID_LEN * GRID_SCALES, 101);
             v.extend(crate::util::split_budget("random", 300_000, 3_000));
+            v.extend(crate::util::split_budget("limbs", 6_000, 300));
             v.extend(crate::util::split_budget("zeros", 4_000, 500));
             v
         }
         Tier::Thorough => {
             let mut v = crate::util::split_budget("grid", GRID_LEN * GRID_SCALES, 101);
             v.extend(crate::util::split_budget("random", 30_000_000, 20_000));
+            v.extend(crate::util::split_budget("limbs", 600_000, 3_000));
             v.extend(crate::util::split_budget("zeros", 200_000, 2_000));
             v
         }
@@ -101,6 +103,23 @@ fn run_unit(unit: &Unit, r: &mut Rng, ctx: &mut Ctx) {
                 };
                 let case = Case::new("value").push(d.tok());
                 check_case(&case, ctx);
+            }
+        }
+        "limbs" => {
+            // consecutive renderings (same thread) of values that agree in their low 64-bit limbs but differ in
+            // limb count: y, y + m*2^(64k), y mod 2^(64j), y again
+            for _ in 0..unit.count {
+                let k = 2 + r.below(3) as usize;
+                let mut y = BigInt::zero();
+                for _ in 0..k { y = (y << 64) + BigInt::from(r.next() | 1); }
+                let s = r.range(-30, 60);
+                let j = 1 + r.below(k as u64 - 1) as usize;
+                let more = &y + (BigInt::from(1 + r.below(9)) << (64 * k));
+                let less = &y % (BigInt::from(1u8) << (64 * j));
+                for n in [y.clone(), more, less, y.clone(), -y.clone()] {
+                    let case = Case::new("value").push(Dec::new(n, s).tok());
+                    check_case(&case, ctx);
+                }
             }
         }
         "zeros" => {
